@@ -23,7 +23,11 @@ MANIFEST = {
             "kernel-evaluated BCH distance certificate with a soundness proof (any 1..4 substituted data "
             "characters within 89 symbols are detected), over constants regenerated from the source; plus "
             "extracted-model/implementation correspondence and an independent specification acceptor on the "
-            "neighbourhood of valid strings.",
+            "neighbourhood of valid strings.  Part 2 (address level): for each of the 35 modelled *AddrDecoder.DecodeAddr "
+            "entry points a theorem 'accepts s iff <explicit layout>' and the corollary that an accepted string is the "
+            "encoder's text for the returned payload up to the format's case rule (or a kernel-evaluated refutation plus "
+            "the partial statement with the exact extra condition), tied to the implementation by streams of "
+            "checksum-valid but structurally wrong strings built with reference codecs written here.",
     "note": "SHA-256 and secp256k1 key validity are oracles; str.lower/islower/isupper are tables regenerated "
             "from the running interpreter.",
     "technique": "Coq proof (GF(2)-linearity of polymod + vm_compute distance certificate + soundness lemma) + "
@@ -34,7 +38,11 @@ RULE = ("Neighbourhood of valid strings: all single substitutions over the chars
         "insertions, deletions, case flips, truncations for a sample; double substitutions for short strings "
         "(all of them in the thorough tier); mixed case; non-ASCII look-alikes from the interpreter's lower() "
         "table; wrong HRP; Bech32/Bech32m confusion; witness versions 0..31 x program lengths 0..42; "
-        "ConvertBits exhaustively on short inputs.")
+        "ConvertBits exhaustively on short inputs.  Address decoders: per key every listed structural variant -- payload "
+        "one byte short / long, optional field missing / extra (Monero payment id, Shelley staking part), every header "
+        "type 0..15, wrong prefix / version / net tag, spare Base32 bits 1..3 (Algorand) and 1..7 (Filecoin), Nano pad "
+        "bits, explicit '=' padding, invalid keys under a valid checksum, upper / lower / mixed case, CBOR variants "
+        "(trailing bytes, non-minimal heads, indefinite arrays, wrong item types) for Byron.")
 TRUSTED = ["sha256 is an oracle (hashlib); secp256k1 private-key validity is an oracle (32 bytes, 0 < k < n with the "
            "reference group order); the WIF theorems assume |sha256 x| = 32 and that valid keys have 32 bytes",
            "Gen/CaseTables.v: chr(c).lower()/upper()/islower()/isupper() enumerated over the whole code space of the "
@@ -47,6 +55,13 @@ TRUSTED = ["sha256 is an oracle (hashlib); secp256k1 private-key validity is an 
            "by the kernel's VM (vm_cast_no_check + Qed), re-run whenever the generator words change",
            "SegwitBech32Encoder.Encode is modelled for wit_ver >= 0 only (Python's negative indexing of CHARSET is "
            "not modelled); ConvertBits with to_bits = 0 (non-terminating in Python) returns OutOfFuel in the model"]
+TRUSTED += ["address level: hashes (SHA-256, RIPEMD-160, Keccak, SHA3, SHA-512/256, BLAKE2b), CRC-16/32, key validity and "
+            "cbor2.loads are oracles of the models; the acceptance theorems quantify over them and need no law except "
+            "|keccak x| = 32 (Monero) and |blake2b512 x| = 64 (SS58); refutations exhibit an instance (constant-zero hash, "
+            "toy CBOR parsers that satisfy the laws assumed in C18)",
+            "reference codecs of the address streams (Base58, Base32 with custom alphabets and settable spare bits, "
+            "CRC-16/XModem, CRC-32, a small CBOR encoder/parser, EIP-55, Nimiq IBAN check) are written in "
+            "harness/props/C10.py; hashes come from hashlib / pycryptodome, key validity from harness/ecref.py"]
 ASSUMPTIONS = ["hash output length 32 bytes", "valid secp256k1 private keys have 32 bytes"]
 BUDGET = {"quick": 170, "thorough": 600}
 
@@ -943,9 +958,985 @@ def gen_ss58_xmr(ctx):
         ctx.run("xmr_decode", ["".join(t)], "mutated")
 
 
+# ##################################################################################################################
+# PART 2 -- address-level decoders (every *AddrDecoder.DecodeAddr): Props/C10.v part 2, Lemmas/AddrAccept*.v.
+# The theorems characterise what the MODELS accept; the streams below tie them to /repo in the NON-round-trip
+# direction: strings built here with the harness's own reference codecs that are checksum-VALID but structurally
+# off (payload too short / too long, optional field missing or extra, wrong prefix / version / header bits,
+# non-canonical padding bits, explicit padding, invalid key, other case), compared between model and
+# implementation; and a direct check that every string the implementation ACCEPTS is -- up to the format's case
+# rule -- the reference encoder's text for the payload it returned (and that a returned key is a valid key).
+# ##################################################################################################################
+import ecref as _ec
+import oracles as _orc
+import oracles_addr as _oa
+import bip_utils as _bu
+from bip_utils.addr import (XtzAddrPrefixes as _XtzP, XlmAddrTypes as _XlmT, ErgoNetworkTypes as _ErgoN,
+                            AdaShelleyAddrNetworkTags as _AdaTag)
+
+XRP58 = "rpshnaf39wBUDNEGHJKLM4PQRST7VWXYZ2bcdeCg65jkm8oFqi1tuvAxyz"
+RFC32 = "ABCDEFGHIJKLMNOPQRSTUVWXYZ234567"
+FIL32 = "abcdefghijklmnopqrstuvwxyz234567"
+NANO32 = "13456789abcdefghijkmnopqrstuwxyz"
+NIM32 = "0123456789ABCDEFGHJKLMNPQRSTUVXY"
+A_ALPH = [B58, XRP58]
+
+
+def a_b58enc(b, alph=B58):
+    n, out = int.from_bytes(b, "big"), ""
+    while n:
+        n, r = divmod(n, 58)
+        out = alph[r] + out
+    return alph[0] * (len(b) - len(b.lstrip(b"\x00"))) + out
+
+
+def a_b58dec(s, alph=B58):
+    v = 0
+    for c in s:
+        i = alph.find(c)
+        if i < 0 or c == "":
+            return None
+        v = v * 58 + i
+    return bytes(len(s) - len(s.lstrip(alph[0]))) + v.to_bytes((v.bit_length() + 7) // 8, "big")
+
+
+def a_dsha4(b):
+    return hashlib.sha256(hashlib.sha256(b).digest()).digest()[:4]
+
+
+def a_b58check(b, alph=B58):
+    return a_b58enc(b + a_dsha4(b), alph)
+
+
+def a_b32enc(b, alph=RFC32, spare=0):
+    """RFC 4648 section 6 without padding; [spare] is OR-ed into the left-over bits of the last symbol."""
+    bits = "".join(format(x, "08b") for x in b)
+    pad = -len(bits) % 5
+    v = [int((bits + "0" * pad)[i:i + 5], 2) for i in range(0, len(bits) + pad, 5)]
+    if v and pad:
+        v[-1] |= spare & ((1 << pad) - 1)
+    return "".join(alph[x] for x in v)
+
+
+def a_crc16_xmodem(b):
+    crc = 0
+    for x in b:
+        crc ^= x << 8
+        for _ in range(8):
+            crc = ((crc << 1) ^ 0x1021) & 0xFFFF if crc & 0x8000 else (crc << 1) & 0xFFFF
+    return crc
+
+
+def a_crc32(b):
+    crc = 0xFFFFFFFF
+    for x in b:
+        crc ^= x
+        for _ in range(8):
+            crc = (crc >> 1) ^ 0xEDB88320 if crc & 1 else crc >> 1
+    return crc ^ 0xFFFFFFFF
+
+
+def a_keccak(b):
+    from Crypto.Hash import keccak
+    return keccak.new(data=bytes(b), digest_bits=256).digest()
+
+
+def a_blake(b, n):
+    return hashlib.blake2b(bytes(b), digest_size=n).digest()
+
+
+def a_bech32(hrp, data, const=BECH32_CONST, flip=0):
+    syms = ref_convertbits(data, 8, 5)
+    if flip and syms:
+        syms[-1] ^= flip
+    return ref_bech32_encode(hrp, syms, const)
+
+
+def a_segwit(hrp, v, prog, const=None):
+    const = (BECH32_CONST if v == 0 else BECH32M_CONST) if const is None else const
+    return ref_bech32_encode(hrp, [v] + ref_convertbits(prog, 8, 5), const)
+
+
+def a_cash(hrp, nv, d):
+    return ref_cash_encode(hrp, ref_convertbits(nv + d, 8, 5))
+
+
+# ---- CBOR (RFC 8949), a few lines: encoder with selectable head width, parser returning (value, consumed)
+def cb_head(major, n, width=None):
+    if width is None:
+        width = 0 if n < 24 else 1 if n < 1 << 8 else 2 if n < 1 << 16 else 4 if n < 1 << 32 else 8
+    if width == 0:
+        return bytes([major << 5 | n])
+    return bytes([major << 5 | {1: 24, 2: 25, 4: 26, 8: 27}[width]]) + n.to_bytes(width, "big")
+
+
+def cb_uint(n, width=None):
+    return cb_head(0, n, width)
+
+
+def cb_bytes(b):
+    return cb_head(2, len(b)) + b
+
+
+def cb_array(items, indefinite=False):
+    return (b"\x9f" + b"".join(items) + b"\xff") if indefinite else cb_head(4, len(items)) + b"".join(items)
+
+
+def cb_map(kvs):
+    return cb_head(5, len(kvs)) + b"".join(k + v for k, v in kvs)
+
+
+def cb_tag(t, item):
+    return cb_head(6, t) + item
+
+
+class CbTag(object):
+    def __init__(self, tag, value):
+        self.tag, self.value = tag, value
+
+
+def cb_parse(b, i=0):
+    """(value, next index) or raises ValueError; ints, bytes, text, array (definite / indefinite), map, tag, simple."""
+    if i >= len(b):
+        raise ValueError("eof")
+    major, ai = b[i] >> 5, b[i] & 31
+    i += 1
+    if ai < 24:
+        n = ai
+    elif ai in (24, 25, 26, 27):
+        w = 1 << (ai - 24)
+        if i + w > len(b):
+            raise ValueError("eof")
+        n, i = int.from_bytes(b[i:i + w], "big"), i + w
+    elif ai == 31 and major == 4:
+        out = []
+        while True:
+            if i >= len(b):
+                raise ValueError("eof")
+            if b[i] == 0xFF:
+                return out, i + 1
+            v, i = cb_parse(b, i)
+            out.append(v)
+    else:
+        raise ValueError("head")
+    if major == 0:
+        return n, i
+    if major == 1:
+        return -1 - n, i
+    if major in (2, 3):
+        if i + n > len(b):
+            raise ValueError("eof")
+        return (bytes(b[i:i + n]) if major == 2 else bytes(b[i:i + n]).decode("utf-8", "replace")), i + n
+    if major == 7:
+        return ("simple", n), i
+    if major == 4:
+        out = []
+        for _ in range(n):
+            v, i = cb_parse(b, i)
+            out.append(v)
+        return out, i
+    if major == 5:
+        d = {}
+        for _ in range(n):
+            k, i = cb_parse(b, i)
+            v, i = cb_parse(b, i)
+            d[k] = v
+        return d, i
+    if major == 6:
+        v, i = cb_parse(b, i)
+        return CbTag(n, v), i
+    raise ValueError("major")
+
+
+# ---- keys
+_S, _E25 = _ec.SECP256K1, _ec.ED25519
+
+
+def a_secp(k):
+    return _S.ser_c(_S.mul(k, _S.G))
+
+
+def a_ed(seed):
+    return _E25.pub_rfc8032(seed, lambda b: hashlib.sha512(b).digest())
+
+
+def a_edb(seed):
+    return _E25.pub_rfc8032(seed, lambda b: hashlib.blake2b(b, digest_size=64).digest())
+
+
+def a_bad_ed():
+    """a 32-byte string that is no ed25519 point encoding"""
+    i = 2
+    while _oa.valid_pub(2, i.to_bytes(32, "little")):
+        i += 1
+    return i.to_bytes(32, "little")
+
+
+def a_bad_secp():
+    x = 1
+    while _oa.valid_pub(0, b"\x02" + x.to_bytes(32, "big")):
+        x += 1
+    return b"\x02" + x.to_bytes(32, "big")
+
+
+BAD_ED, BAD_SECP = a_bad_ed(), a_bad_secp()
+
+
+# ---- reference address texts from the payload the decoder returns
+def a_eip55(h):
+    dg = a_keccak(h.lower().encode()).hex()
+    return "".join(c.upper() if int(dg[i], 16) >= 8 else c.lower() for i, c in enumerate(h))
+
+
+def a_nim_check(e):
+    t = e + "NQ00"
+    n = int("".join(str(int(c, 36)) for c in t))
+    return "%02d" % (98 - n % 97)
+
+
+def a_nim(h20, spaced=True):
+    e = a_b32enc(h20, NIM32)
+    s = "NQ" + a_nim_check(e) + e
+    return " ".join(s[i:i + 4] for i in range(0, len(s), 4)) if spaced else s
+
+
+def a_algo(pub, spare=0, ck=None):
+    ck = _orc.sha512_256(pub)[-4:] if ck is None else ck
+    return a_b32enc(pub + ck, RFC32, spare)
+
+
+def a_xlm(t, pub):
+    pl = bytes([t]) + pub
+    return a_b32enc(pl + a_crc16_xmodem(pl).to_bytes(2, "little"), RFC32)
+
+
+def a_fil(h, spare=0, ty=1, cty=None):
+    return "f" + str(ty) + a_b32enc(h + a_blake(bytes([ty if cty is None else cty]) + h, 4), FIL32, spare)
+
+
+def a_nano(pub, pad=b"\x00\x00\x00", ck=None):
+    ck = a_blake(pub, 5)[::-1] if ck is None else ck
+    return "nano_" + a_b32enc(pad + pub + ck, NANO32)[4:]
+
+
+def a_xmr(net, body):
+    pl = net + body
+    return _c11.xmr_ref_encode(pl + a_keccak(pl)[:4])
+
+
+def a_byron_payload(rh, path=None, ty=0, extra_attrs=(), junk=b""):
+    attrs = ([(cb_uint(1), cb_bytes(cb_bytes(path)))] if path is not None else []) + list(extra_attrs)
+    return cb_array([cb_bytes(rh), cb_map(attrs), cb_uint(ty)]) + junk
+
+
+def a_byron(payload, tag=24, crc=None, crc_width=None, indefinite=False, junk=b""):
+    crc = a_crc32(payload) if crc is None else crc
+    return a_b58enc(cb_array([cb_tag(tag, cb_bytes(payload)), cb_uint(crc, crc_width)], indefinite) + junk)
+
+
+ADA_HRP = [("addr", "stake"), ("addr_test", "stake_test")]      # order of Gen ada_nets: mainnet (tag 1), testnet (tag 0)
+ADA_TAG = [1, 0]
+A_TAGS = [_AdaTag.MAINNET, _AdaTag.TESTNET]
+A_XTZ = [_XtzP.TZ1, _XtzP.TZ2, _XtzP.TZ3]
+A_ERGO = {0: _ErgoN.MAINNET, 16: _ErgoN.TESTNET}
+A_ETHB32 = [("inj", _bu.InjAddrDecoder), ("ex", _bu.OkexAddrDecoder), ("one", _bu.OneAddrDecoder)]
+A_AVAX = [("P-", "avax", _bu.AvaxPChainAddrDecoder), ("X-", "avax", _bu.AvaxXChainAddrDecoder)]
+
+
+def is_key(curve, b):
+    return bool(_oa.valid_pub(curve, b))
+
+
+def exact(s, want, what):
+    return None if s == want else "%s: accepted %r is not the encoder's text %r for the payload it returned" % (what, s, want)
+
+
+def nocase(s, want, what):
+    """hex formats: any case mix accepted, the encoder writes lower case"""
+    return None if s.lower() == want else "%s: accepted %r differs (beyond case) from the encoder's text %r" % (what, s, want)
+
+
+def b32case(s, want, what, prefix=""):
+    """Bech32 family: all-lower or all-upper (after the optional fixed prefix)"""
+    ok = s.startswith(prefix) and s[len(prefix):] in (want, want.upper())
+    return None if ok else "%s: accepted %r is not the encoder's text %r (up to the all-upper form)" % (what, s, prefix + want)
+
+
+def keyok(curve, d, what):
+    return None if is_key(curve, d) else "%s: returned %s is not a valid key" % (what, d.hex())
+
+
+def first(*msgs):
+    for m in msgs:
+        if m:
+            return m
+    return None
+
+
+def hlen(d, n, what):
+    return None if len(d) == n else "%s: returned %d bytes, the format's payload has %d" % (what, len(d), n)
+
+
+def ad(impl, reenc):
+    """direct check: if the implementation accepts, the string is the reference encoding of what it returned"""
+    def direct(a):
+        r = impl_call(impl, a)
+        return reenc(a, r[1]) if r[0] == "ok" else None
+    return direct
+
+
+def _byron_direct(a, d):
+    raw = a_b58dec(a[0])
+    try:
+        outer, n = cb_parse(raw)
+        if n != len(raw):
+            return "ADA-BYRON: accepted %r although %d byte(s) follow the CBOR item (ignored by the decoder)" % (a[0], len(raw) - n)
+        tagv, crc = outer
+        pl, n2 = cb_parse(tagv.value)
+        if n2 != len(tagv.value):
+            return "ADA-BYRON: accepted %r although %d byte(s) follow the payload CBOR item" % (a[0], len(tagv.value) - n2)
+        rh, attrs, ty = pl
+        path = b"" if 1 not in attrs else cb_parse(attrs[1])[0]
+        if tagv.tag != 24 or crc != a_crc32(tagv.value) or ty != 0 or len(rh) != 28 or d != rh + path:
+            return "ADA-BYRON: accepted %r does not have the Byron layout for the returned %s" % (a[0], d.hex())
+    except (ValueError, TypeError, AttributeError, KeyError) as e:
+        return "ADA-BYRON: accepted %r is not well-formed CBOR of the address shape (%s)" % (a[0], e)
+    return None
+
+
+def _xmr_impl(a):
+    s, net, pid = a
+    if pid is None:
+        return _bu.XmrAddrDecoder.DecodeAddr(s, net_ver=net)
+    return _bu.XmrIntegratedAddrDecoder.DecodeAddr(s, net_ver=net, payment_id=pid)
+
+
+def _aptos_re(a, d):
+    s = a[0]
+    return first(hlen(d, 32, "APTOS"),
+                 None if s[:2] == "0x" and s[2:].rjust(64, "0").lower() == d.hex() else
+                 "APTOS: accepted %r is not a zero-trimmed form of 0x%s" % (s, d.hex()))
+
+
+def _opt(p):
+    return [] if p is None else [p]
+
+
+AFUNCS = {
+    # [alphabet index, net_ver, s]
+    "addr_p2pkh": Func(model=lambda m, a: m.call("addr.p2pkh_decode", a[0], a[1], a[2]),
+                       impl=lambda a: _bu.P2PKHAddrDecoder.DecodeAddr(a[2], net_ver=a[1], base58_alph=ALPH58[a[0]]),
+                       direct=ad(lambda a: _bu.P2PKHAddrDecoder.DecodeAddr(a[2], net_ver=a[1], base58_alph=ALPH58[a[0]]),
+                                 lambda a, d: first(hlen(d, 20, "P2PKH"), exact(a[2], a_b58check(a[1] + d, A_ALPH[a[0]]), "P2PKH")))),
+    "addr_p2sh": Func(model=lambda m, a: m.call("addr.p2sh_decode", a[0], a[1]),
+                      impl=lambda a: _bu.P2SHAddrDecoder.DecodeAddr(a[1], net_ver=a[0]),
+                      direct=ad(lambda a: _bu.P2SHAddrDecoder.DecodeAddr(a[1], net_ver=a[0]),
+                                lambda a, d: first(hlen(d, 20, "P2SH"), exact(a[1], a_b58check(a[0] + d), "P2SH")))),
+    "addr_xrp": Func(model=lambda m, a: m.call("addr.xrp_decode", a[0]), impl=lambda a: _bu.XrpAddrDecoder.DecodeAddr(a[0]),
+                     direct=ad(lambda a: _bu.XrpAddrDecoder.DecodeAddr(a[0]),
+                               lambda a, d: first(hlen(d, 20, "XRP"), exact(a[0], a_b58check(b"\x00" + d, XRP58), "XRP")))),
+    # [prefix index, s]
+    "addr_xtz": Func(model=lambda m, a: m.call("addr.xtz_decode", A_XTZ[a[0]].value, a[1]),
+                     impl=lambda a: _bu.XtzAddrDecoder.DecodeAddr(a[1], prefix=A_XTZ[a[0]]),
+                     direct=ad(lambda a: _bu.XtzAddrDecoder.DecodeAddr(a[1], prefix=A_XTZ[a[0]]),
+                               lambda a, d: first(hlen(d, 20, "XTZ"), exact(a[1], a_b58check(A_XTZ[a[0]].value + d), "XTZ")))),
+    # [ver, s]
+    "addr_neo": Func(model=lambda m, a: m.call("addr.neo_decode", a[0], a[1]), impl=lambda a: _bu.NeoAddrDecoder.DecodeAddr(a[1], ver=a[0]),
+                     direct=ad(lambda a: _bu.NeoAddrDecoder.DecodeAddr(a[1], ver=a[0]),
+                               lambda a, d: first(hlen(d, 20, "NEO"), exact(a[1], a_b58check(a[0] + d), "NEO")))),
+    "addr_trx": Func(model=lambda m, a: m.call("addr.trx_decode", a[0]), impl=lambda a: _bu.TrxAddrDecoder.DecodeAddr(a[0]),
+                     direct=ad(lambda a: _bu.TrxAddrDecoder.DecodeAddr(a[0]),
+                               lambda a, d: first(hlen(d, 20, "TRX"), exact(a[0], a_b58check(b"\x41" + d), "TRX")))),
+    "addr_eos": Func(model=lambda m, a: m.call("addr.eos_decode", a[0]), impl=lambda a: _bu.EosAddrDecoder.DecodeAddr(a[0]),
+                     direct=ad(lambda a: _bu.EosAddrDecoder.DecodeAddr(a[0]),
+                               lambda a, d: first(keyok(0, d, "EOS"), hlen(d, 33, "EOS"),
+                                                  exact(a[0], "EOS" + a_b58enc(d + _orc.ripemd160(d)[:4]), "EOS")))),
+    # [net (0 | 16), s]
+    "addr_ergo": Func(model=lambda m, a: m.call("addr.ergo_decode", a[0], a[1]),
+                      impl=lambda a: _bu.ErgoP2PKHAddrDecoder.DecodeAddr(a[1], net_type=A_ERGO[a[0]]),
+                      direct=ad(lambda a: _bu.ErgoP2PKHAddrDecoder.DecodeAddr(a[1], net_type=A_ERGO[a[0]]),
+                                lambda a, d: first(keyok(0, d, "ERGO"), hlen(d, 33, "ERGO"),
+                                                   exact(a[1], a_b58enc(bytes([1 + a[0]]) + d + a_blake(bytes([1 + a[0]]) + d, 32)[:4]), "ERGO")))),
+    "addr_sol": Func(model=lambda m, a: m.call("addr.sol_decode", a[0]), impl=lambda a: _bu.SolAddrDecoder.DecodeAddr(a[0]),
+                     direct=ad(lambda a: _bu.SolAddrDecoder.DecodeAddr(a[0]),
+                               lambda a, d: first(keyok(2, d, "SOL"), exact(a[0], a_b58enc(d), "SOL")))),
+    # [skip, s]
+    "addr_eth": Func(model=lambda m, a: m.call("addr.eth_decode", a[0], a[1]),
+                     impl=lambda a: _bu.EthAddrDecoder.DecodeAddr(a[1], skip_chksum_enc=bool(a[0])),
+                     direct=ad(lambda a: _bu.EthAddrDecoder.DecodeAddr(a[1], skip_chksum_enc=bool(a[0])),
+                               lambda a, d: first(hlen(d, 20, "ETH"),
+                                                  nocase(a[1], "0x" + d.hex(), "ETH") if a[0] else exact(a[1], "0x" + a_eip55(d.hex()), "ETH")))),
+    "addr_icx": Func(model=lambda m, a: m.call("addr.icx_decode", a[0]), impl=lambda a: _bu.IcxAddrDecoder.DecodeAddr(a[0]),
+                     direct=ad(lambda a: _bu.IcxAddrDecoder.DecodeAddr(a[0]),
+                               lambda a, d: first(hlen(d, 20, "ICX"), None if a[0][:2] == "hx" else "ICX: prefix", nocase(a[0][2:], d.hex(), "ICX")))),
+    "addr_near": Func(model=lambda m, a: m.call("addr.near_decode", a[0]), impl=lambda a: _bu.NearAddrDecoder.DecodeAddr(a[0]),
+                      direct=ad(lambda a: _bu.NearAddrDecoder.DecodeAddr(a[0]),
+                                lambda a, d: first(keyok(2, d, "NEAR"), nocase(a[0], d.hex(), "NEAR")))),
+    "addr_sui": Func(model=lambda m, a: m.call("addr.sui_decode", a[0]), impl=lambda a: _bu.SuiAddrDecoder.DecodeAddr(a[0]),
+                     direct=ad(lambda a: _bu.SuiAddrDecoder.DecodeAddr(a[0]),
+                               lambda a, d: first(hlen(d, 32, "SUI"), None if a[0][:2] == "0x" else "SUI: prefix", nocase(a[0][2:], d.hex(), "SUI")))),
+    "addr_aptos": Func(model=lambda m, a: m.call("addr.aptos_decode", a[0]), impl=lambda a: _bu.AptosAddrDecoder.DecodeAddr(a[0]),
+                       direct=ad(lambda a: _bu.AptosAddrDecoder.DecodeAddr(a[0]), _aptos_re)),
+    # ---- Bech32 families
+    # [hrp, s]
+    "addr_atom": Func(model=lambda m, a: m.call("addrbech.atom_decode", a[0], a[1]), impl=lambda a: _bu.AtomAddrDecoder.DecodeAddr(a[1], hrp=a[0]),
+                      direct=ad(lambda a: _bu.AtomAddrDecoder.DecodeAddr(a[1], hrp=a[0]),
+                                lambda a, d: first(hlen(d, 20, "ATOM"), b32case(a[1], a_bech32(a[0], d), "ATOM")))),
+    # [0 P | 1 X, s]
+    "addr_avax": Func(model=lambda m, a: m.call("addrbech.avax_decode", a[0], a[1]), impl=lambda a: A_AVAX[a[0]][2].DecodeAddr(a[1]),
+                      direct=ad(lambda a: A_AVAX[a[0]][2].DecodeAddr(a[1]),
+                                lambda a, d: first(hlen(d, 20, "AVAX"), b32case(a[1], a_bech32("avax", d), "AVAX", A_AVAX[a[0]][0])))),
+    "addr_egld": Func(model=lambda m, a: m.call("addrbech.egld_decode", a[0]), impl=lambda a: _bu.EgldAddrDecoder.DecodeAddr(a[0]),
+                      direct=ad(lambda a: _bu.EgldAddrDecoder.DecodeAddr(a[0]),
+                                lambda a, d: first(keyok(2, d, "EGLD"), b32case(a[0], a_bech32("erd", d), "EGLD")))),
+    "addr_zil": Func(model=lambda m, a: m.call("addrbech.zil_decode", a[0]), impl=lambda a: _bu.ZilAddrDecoder.DecodeAddr(a[0]),
+                     direct=ad(lambda a: _bu.ZilAddrDecoder.DecodeAddr(a[0]),
+                               lambda a, d: first(hlen(d, 20, "ZIL"), b32case(a[0], a_bech32("zil", d), "ZIL")))),
+    # [0 inj | 1 okex | 2 one, s]
+    "addr_ethb32": Func(model=lambda m, a: m.call("addrbech.ethb32_decode", a[0], a[1]), impl=lambda a: A_ETHB32[a[0]][1].DecodeAddr(a[1]),
+                        direct=ad(lambda a: A_ETHB32[a[0]][1].DecodeAddr(a[1]),
+                                  lambda a, d: first(hlen(d, 20, "ETH-BECH32"), b32case(a[1], a_bech32(A_ETHB32[a[0]][0], d), "ETH-BECH32")))),
+    # [hrp, s]
+    "addr_p2wpkh": Func(model=lambda m, a: m.call("addrbech.p2wpkh_decode", a[0], a[1]), impl=lambda a: _bu.P2WPKHAddrDecoder.DecodeAddr(a[1], hrp=a[0]),
+                        direct=ad(lambda a: _bu.P2WPKHAddrDecoder.DecodeAddr(a[1], hrp=a[0]),
+                                  lambda a, d: first(hlen(d, 20, "P2WPKH"), b32case(a[1], a_segwit(a[0], 0, d), "P2WPKH")))),
+    "addr_p2tr": Func(model=lambda m, a: m.call("addrbech.p2tr_decode", a[0], a[1]), impl=lambda a: _bu.P2TRAddrDecoder.DecodeAddr(a[1], hrp=a[0]),
+                      direct=ad(lambda a: _bu.P2TRAddrDecoder.DecodeAddr(a[1], hrp=a[0]),
+                                lambda a, d: first(hlen(d, 32, "P2TR"), b32case(a[1], a_segwit(a[0], 1, d), "P2TR")))),
+    # [hrp, net_ver, s]
+    "addr_bch": Func(model=lambda m, a: m.call("addrbech.bch_decode", a[0], a[1], a[2]),
+                     impl=lambda a: _bu.BchP2PKHAddrDecoder.DecodeAddr(a[2], hrp=a[0], net_ver=a[1]),
+                     direct=ad(lambda a: _bu.BchP2PKHAddrDecoder.DecodeAddr(a[2], hrp=a[0], net_ver=a[1]),
+                               lambda a, d: first(hlen(d, 20, "BCH"), b32case(a[2], a_cash(a[0], a[1], d), "BCH")))),
+    # ---- Base32 families
+    "addr_algo": Func(model=lambda m, a: m.call("addrtext.algo_decode", a[0]), impl=lambda a: _bu.AlgoAddrDecoder.DecodeAddr(a[0]),
+                      direct=ad(lambda a: _bu.AlgoAddrDecoder.DecodeAddr(a[0]),
+                                lambda a, d: first(keyok(2, d, "ALGO"), exact(a[0], a_algo(d), "ALGO")))),
+    # [addr type, s]
+    "addr_xlm": Func(model=lambda m, a: m.call("addrtext.xlm_decode", a[0], a[1]), impl=lambda a: _bu.XlmAddrDecoder.DecodeAddr(a[1], addr_type=_XlmT(a[0])),
+                     direct=ad(lambda a: _bu.XlmAddrDecoder.DecodeAddr(a[1], addr_type=_XlmT(a[0])),
+                               lambda a, d: first(keyok(2, d, "XLM"), exact(a[1], a_xlm(a[0], d), "XLM")))),
+    "addr_fil": Func(model=lambda m, a: m.call("addrtext.fil_decode", a[0]), impl=lambda a: _bu.FilSecp256k1AddrDecoder.DecodeAddr(a[0]),
+                     direct=ad(lambda a: _bu.FilSecp256k1AddrDecoder.DecodeAddr(a[0]),
+                               lambda a, d: first(hlen(d, 20, "FIL"), exact(a[0], a_fil(d), "FIL")))),
+    "addr_nano": Func(model=lambda m, a: m.call("addrtext.nano_decode", a[0]), impl=lambda a: _bu.NanoAddrDecoder.DecodeAddr(a[0]),
+                      direct=ad(lambda a: _bu.NanoAddrDecoder.DecodeAddr(a[0]),
+                                lambda a, d: first(keyok(3, d, "NANO"), exact(a[0], a_nano(d), "NANO")))),
+    "addr_nim": Func(model=lambda m, a: m.call("addrtext.nim_decode", a[0]), impl=lambda a: _bu.NimAddrDecoder.DecodeAddr(a[0]),
+                     direct=ad(lambda a: _bu.NimAddrDecoder.DecodeAddr(a[0]),
+                               lambda a, d: first(hlen(d, 20, "NIM"), exact(a[0].replace(" ", ""), a_nim(d, False), "NIM (spaces ignored)")))),
+    # [format, s]
+    "addr_substrate": Func(model=lambda m, a: m.call("addrtext.substrate_decode", 2, a[0], a[1]),
+                           impl=lambda a: _bu.SubstrateEd25519AddrDecoder.DecodeAddr(a[1], ss58_format=a[0]),
+                           direct=ad(lambda a: _bu.SubstrateEd25519AddrDecoder.DecodeAddr(a[1], ss58_format=a[0]),
+                                     lambda a, d: first(keyok(2, d, "SUBSTRATE"), exact(a[1], _c11.ss58_ref(d, a[0]), "SUBSTRATE")))),
+    # ---- Monero: [s, net_ver, payment id | None]
+    "addr_xmr": Func(model=lambda m, a: m.call("cardmon.xmr_addr_decode", a[0], a[1], _opt(a[2])), impl=_xmr_impl,
+                     direct=ad(_xmr_impl, lambda a, d: first(hlen(d, 64, "XMR"),
+                                                             None if a[2] is None or len(a[2]) == 8 else "XMR integrated: accepted with a %d-byte payment id argument" % len(a[2]),
+                                                             exact(a[0], a_xmr(a[1], d + (a[2] or b"")),
+                                                             "XMR integrated (payment id %s)" % a[2].hex() if a[2] is not None else "XMR")))),
+    # ---- Cardano: [net index, s]
+    "addr_ada_shelley": Func(model=lambda m, a: m.call("cardmon.ada_shelley_decode", a[0], a[1]),
+                             impl=lambda a: _bu.AdaShelleyAddrDecoder.DecodeAddr(a[1], net_tag=A_TAGS[a[0]]),
+                             direct=ad(lambda a: _bu.AdaShelleyAddrDecoder.DecodeAddr(a[1], net_tag=A_TAGS[a[0]]),
+                                       lambda a, d: first(hlen(d, 56, "ADA-SHELLEY"),
+                                                          b32case(a[1], a_bech32(ADA_HRP[a[0]][0], bytes([ADA_TAG[a[0]]]) + d), "ADA-SHELLEY")))),
+    "addr_ada_staking": Func(model=lambda m, a: m.call("cardmon.ada_staking_decode", a[0], a[1]),
+                             impl=lambda a: _bu.AdaShelleyStakingAddrDecoder.DecodeAddr(a[1], net_tag=A_TAGS[a[0]]),
+                             direct=ad(lambda a: _bu.AdaShelleyStakingAddrDecoder.DecodeAddr(a[1], net_tag=A_TAGS[a[0]]),
+                                       lambda a, d: first(hlen(d, 28, "ADA-STAKING"),
+                                                          b32case(a[1], a_bech32(ADA_HRP[a[0]][1], bytes([0xE0 | ADA_TAG[a[0]]]) + d), "ADA-STAKING")))),
+    "addr_ada_byron": Func(model=lambda m, a: m.call("cardmon.ada_byron_decode", a[0]), impl=lambda a: _bu.AdaByronAddrDecoder.DecodeAddr(a[0]),
+                           direct=ad(lambda a: _bu.AdaByronAddrDecoder.DecodeAddr(a[0]), _byron_direct)),
+}
+ALPH58 = [_bu.Base58Alphabets.BITCOIN, _bu.Base58Alphabets.RIPPLE]
+FUNCS.update(AFUNCS)
+
+
+# ------------------------------------------------------------------ generators (address level)
+
+def _keys(ctx, n):
+    rng = ctx.rng
+    out = []
+    for i in range(n):
+        k = rng.randrange(1, _S.n)
+        seed = rbytes(rng, 32)
+        out.append((a_secp(k), a_ed(seed), a_edb(seed), rbytes(rng, 20), rbytes(rng, 32)))
+    return out
+
+
+def _cases(s):
+    """case variants of a text"""
+    return [("upper", s.upper()), ("lower", s.lower()), ("mixed", "".join(c.upper() if i % 3 else c.lower() for i, c in enumerate(s)))]
+
+
+def gen_addr_b58(ctx, keys):
+    rng = ctx.rng
+    for pc, ed, _edb, h, h32 in keys:
+        # Base58Check(prefix ++ digest): payload length, prefix, alphabet
+        for alph in (0, 1):
+            for nv in (b"\x00", b"\x6f", b"\x1c\xb8", b""):
+                good = a_b58check(nv + h, A_ALPH[alph])
+                ctx.run("addr_p2pkh", [alph, nv, good], "valid")
+                for tag, pl in (("short", nv + h[:-1]), ("long", nv + h + b"\x00"), ("prefix-only", nv), ("empty", b""),
+                                ("prefix-flip", bytes(x ^ 1 for x in nv) + h), ("prefix-longer", nv + b"\x00" + h[:-1]),
+                                ("prefix-dropped", h if nv else b"\x00" + h[:-1]), ("32-byte-digest", nv + h32)):
+                    ctx.run("addr_p2pkh", [alph, nv, a_b58check(pl, A_ALPH[alph])], tag)
+                ctx.run("addr_p2pkh", [1 - alph, nv, good], "other-alphabet")
+        for nv in (b"\x05", b"\xc4"):
+            ctx.run("addr_p2sh", [nv, a_b58check(nv + h)], "valid")
+            for tag, pl in (("short", nv + h[:-1]), ("long", nv + h + b"\x00"), ("p2pkh-version", b"\x00" + h)):
+                ctx.run("addr_p2sh", [nv, a_b58check(pl)], tag)
+        ctx.run("addr_xrp", [a_b58check(b"\x00" + h, XRP58)], "valid")
+        for tag, s in (("short", a_b58check(b"\x00" + h[:-1], XRP58)), ("long", a_b58check(b"\x00" + h + b"\x00", XRP58)),
+                       ("version-1", a_b58check(b"\x01" + h, XRP58)), ("btc-alphabet", a_b58check(b"\x00" + h))):
+            ctx.run("addr_xrp", [s], tag)
+        for i in range(3):
+            p = A_XTZ[i].value
+            ctx.run("addr_xtz", [i, a_b58check(p + h)], "valid")
+            ctx.run("addr_xtz", [(i + 1) % 3, a_b58check(p + h)], "other-prefix")
+            for tag, pl in (("short", p + h[:-1]), ("long", p + h + b"\x00"), ("prefix-truncated", p[:2] + h + b"\x00"),
+                            ("32-byte-digest", p + h32)):
+                ctx.run("addr_xtz", [i, a_b58check(pl)], tag)
+        for ver in (b"\x17", b"\x35"):
+            ctx.run("addr_neo", [ver, a_b58check(ver + h)], "valid")
+            for tag, v, pl in (("short", ver, ver + h[:-1]), ("long", ver, ver + h + b"\x00"), ("other-version", ver, b"\x18" + h),
+                               ("two-byte-version-arg", ver + ver, ver + ver + h), ("empty-version-arg", b"", h)):
+                ctx.run("addr_neo", [v, a_b58check(pl)], tag)
+        ctx.run("addr_trx", [a_b58check(b"\x41" + h)], "valid")
+        for tag, pl in (("short", b"\x41" + h[:-1]), ("long", b"\x41" + h + b"\x00"), ("prefix-a0", b"\xa0" + h), ("no-prefix", h + b"\x00")):
+            ctx.run("addr_trx", [a_b58check(pl)], tag)
+        # own checksum: EOS, ERGO; none: SOL
+        def eos(pub, pre="EOS", ck=None):
+            return pre + a_b58enc(pub + (_orc.ripemd160(pub)[:4] if ck is None else ck))
+        ctx.run("addr_eos", [eos(pc)], "valid")
+        for tag, s in (("invalid-key", eos(BAD_SECP)), ("32-byte-key", eos(pc[1:])), ("34-byte-key", eos(pc + b"\x00")),
+                       ("uncompressed-key", eos(_S.ser_u(_S.deser(pc)))), ("prefix-lower", eos(pc, "eos")), ("no-prefix", eos(pc, "")),
+                       ("prefix-EO", eos(pc, "EO")), ("sha-checksum", eos(pc, ck=a_dsha4(pc))), ("x-only-02", eos(b"\x02" + pc[1:]))):
+            ctx.run("addr_eos", [s], tag)
+        def ergo(net, pub, ty=1):
+            pl = bytes([ty + net]) + pub
+            return a_b58enc(pl + a_blake(pl, 32)[:4])
+        for net in (0, 16):
+            ctx.run("addr_ergo", [net, ergo(net, pc)], "valid")
+            ctx.run("addr_ergo", [16 - net, ergo(net, pc)], "other-net")
+            for tag, s in (("p2sh-type", ergo(net, pc, 2)), ("type-0", ergo(net, pc, 0)), ("invalid-key", ergo(net, BAD_SECP)),
+                           ("32-byte-key", ergo(net, pc[1:])), ("34-byte-key", ergo(net, pc + b"\x00"))):
+                ctx.run("addr_ergo", [net, s], tag)
+        ctx.run("addr_sol", [a_b58enc(ed)], "valid")
+        for tag, s in (("invalid-key", a_b58enc(BAD_ED)), ("31-bytes", a_b58enc(ed[1:])), ("33-bytes", a_b58enc(ed + b"\x01")),
+                       ("zero-prefixed-31", a_b58enc(b"\x00" + ed[:31])), ("extra-leading-1", "1" + a_b58enc(ed))):
+            ctx.run("addr_sol", [s], tag)
+        # hex formats
+        e = "0x" + a_eip55(h.hex())
+        for skip in (0, 1):
+            ctx.run("addr_eth", [skip, e], "valid")
+            for tag, s in _cases(e) + [("prefix-0X", "0X" + e[2:]), ("no-prefix", e[2:]), ("19-bytes", e[:-2]), ("21-bytes", e + "00"),
+                                       ("39-digits", e[:-1]), ("non-hex", e[:-1] + "g"), ("fullwidth-digit", e[:-1] + "１"),
+                                       ("one-case-flipped", e[:2] + "".join(c.swapcase() if i == next((j for j, x in enumerate(e[2:]) if x.isalpha()), 0) else c
+                                                                          for i, c in enumerate(e[2:])))]:
+                ctx.run("addr_eth", [skip, s], tag)
+        for fn, pre, pl in (("addr_icx", "hx", h), ("addr_near", "", ed), ("addr_sui", "0x", h32), ("addr_aptos", "0x", h32)):
+            s = pre + pl.hex()
+            ctx.run(fn, [s], "valid")
+            for tag, t in _cases(s) + [("short", s[:-2]), ("long", s + "00"), ("odd", s[:-1]), ("non-hex", s[:-1] + "x"),
+                                       ("no-prefix", s[len(pre):] if pre else "0x" + s), ("space", s[:-1] + " ")]:
+                ctx.run(fn, [t], tag)
+        ctx.run("addr_near", [BAD_ED.hex()], "invalid-key")
+        z = "0x" + (b"\x00\x0a" + h32[2:]).hex()
+        for tag, t in (("untrimmed", z), ("trimmed", "0x" + z[2:].lstrip("0")), ("half-trimmed", "0x" + z[4:]), ("empty-body", "0x"),
+                       ("single-zero", "0x0"), ("65-digits", "0x0" + z[2:]), ("upper-trimmed", "0x" + z[2:].lstrip("0").upper())):
+            ctx.run("addr_aptos", [t], tag)
+
+
+def gen_addr_bech32(ctx, keys):
+    rng = ctx.rng
+    for pc, ed, _edb, h, h32 in keys:
+        def fixed(fn, mk, hrp, good, bad_lens, key=False):
+            """[mk(s)]: the argument list for string s"""
+            s = a_bech32(hrp, good)
+            ctx.run(fn, mk(s), "valid")
+            for tag, t in _cases(s):
+                ctx.run(fn, mk(t), tag)
+            for n in bad_lens:
+                ctx.run(fn, mk(a_bech32(hrp, rbytes(rng, n))), "payload-%d-bytes" % n)
+            ctx.run(fn, mk(a_bech32(hrp, good, BECH32M_CONST)), "bech32m-checksum")
+            ctx.run(fn, mk(a_bech32(hrp, good, flip=1)), "last-symbol-bit-flipped")
+            ctx.run(fn, mk(ref_bech32_encode(hrp, ref_convertbits(good, 8, 5) + [0], BECH32_CONST)), "extra-zero-symbol")
+            ctx.run(fn, mk(a_bech32(hrp + "x", good)), "other-hrp")
+            ctx.run(fn, mk(a_bech32(hrp.upper(), good)), "upper-hrp-checksum")
+            if key:
+                ctx.run(fn, mk(a_bech32(hrp, BAD_ED)), "invalid-key")
+        for hrp in ("cosmos", "band", "a1b"):
+            fixed("addr_atom", lambda s, hrp=hrp: [hrp, s], hrp, h, (0, 19, 21, 32))
+        for x, (pre, hrp, _cls) in enumerate(A_AVAX):
+            fixed("addr_avax", lambda s, x=x, pre=pre: [x, pre + s], hrp, h, (19, 21))
+            good = a_bech32(hrp, h)
+            for tag, t in (("other-chain-prefix", A_AVAX[1 - x][0] + good), ("no-prefix", good), ("prefix-lower", pre.lower() + good),
+                           ("prefix-twice", pre + pre + good), ("prefix-upper-body", pre + good.upper())):
+                ctx.run("addr_avax", [x, t], tag)
+        fixed("addr_egld", lambda s: [s], "erd", ed, (31, 33, 20), key=True)
+        fixed("addr_zil", lambda s: [s], "zil", h, (19, 21, 32))
+        for w, (hrp, _cls) in enumerate(A_ETHB32):
+            fixed("addr_ethb32", lambda s, w=w: [w, s], hrp, h, (0, 19, 21, 32))
+            ctx.run("addr_ethb32", [(w + 1) % 3, a_bech32(hrp, h)], "other-coin")
+        # SegWit: version x program length
+        for hrp in ("bc", "tb"):
+            for v, n in ((0, 20), (0, 32), (1, 20), (1, 32), (1, 33), (1, 31), (2, 32), (16, 20), (0, 2)):
+                prog = rbytes(rng, n)
+                for const in (BECH32_CONST, BECH32M_CONST):
+                    s = a_segwit(hrp, v, prog, const)
+                    tag = "v%d-%dB-%s" % (v, n, "b32" if const == BECH32_CONST else "b32m")
+                    ctx.run("addr_p2wpkh", [hrp, s], tag)
+                    ctx.run("addr_p2tr", [hrp, s], tag)
+            s0, s1 = a_segwit(hrp, 0, h), a_segwit(hrp, 1, h32)
+            for tag, t in _cases(s0):
+                ctx.run("addr_p2wpkh", [hrp, t], tag)
+            for tag, t in _cases(s1):
+                ctx.run("addr_p2tr", [hrp, t], tag)
+            ctx.run("addr_p2wpkh", ["bc" if hrp == "tb" else "tb", s0], "other-hrp")
+            ctx.run("addr_p2tr", ["bc" if hrp == "tb" else "tb", s1], "other-hrp")
+        # CashAddr
+        for hrp in ("bitcoincash", "bchtest"):
+            for nv in (b"\x00", b"\x08"):
+                s = a_cash(hrp, nv, h)
+                ctx.run("addr_bch", [hrp, nv, s], "valid")
+                ctx.run("addr_bch", [hrp, bytes([nv[0] ^ 8]), s], "other-net-ver")
+                ctx.run("addr_bch", [hrp, nv + nv, s], "two-byte-net-ver-arg")
+                ctx.run("addr_bch", [hrp, b"", s], "empty-net-ver-arg")
+                for tag, t in _cases(s) + [("no-prefix", s.split(":")[1])]:
+                    ctx.run("addr_bch", [hrp, nv, t], tag)
+                for n in (0, 19, 21, 24, 32):
+                    ctx.run("addr_bch", [hrp, nv, a_cash(hrp, nv, rbytes(rng, n))], "payload-%d-bytes" % n)
+                ctx.run("addr_bch", [hrp, nv, a_cash(hrp, bytes([nv[0] | 3]), h32)], "size-bits-32")
+
+
+def gen_addr_base32(ctx, keys):
+    rng = ctx.rng
+    for pc, ed, edb, h, h32 in keys:
+        s = a_algo(ed)
+        ctx.run("addr_algo", [s], "valid")
+        for sp in (1, 2, 3):
+            ctx.run("addr_algo", [a_algo(ed, sp)], "spare-bits-%d" % sp)
+        for tag, t in (("explicit-padding", s + "======"), ("padding-5", s + "====="), ("lower", s.lower()), ("invalid-key", a_algo(BAD_ED)),
+                       ("31-byte-key", a_algo(ed[1:])), ("33-byte-key", a_algo(ed + b"\x00")), ("sha256-checksum", a_algo(ed, ck=hashlib.sha256(ed).digest()[-4:])),
+                       ("first-4-checksum", a_algo(ed, ck=_orc.sha512_256(ed)[:4])), ("space", s[:29] + " " + s[29:]), ("digit-1", s[:-1] + "1")):
+            ctx.run("addr_algo", [t], tag)
+        for t in (48, 144):
+            s = a_xlm(t, ed)
+            ctx.run("addr_xlm", [t, s], "valid")
+            ctx.run("addr_xlm", [192 - t, s], "other-type")
+            for tag, u in (("explicit-padding", s + "========"), ("lower", s.lower()), ("invalid-key", a_xlm(t, BAD_ED)), ("31-byte-key", a_xlm(t, ed[1:])),
+                           ("33-byte-key", a_xlm(t, ed + b"\x00")), ("type-flip", a_xlm(t ^ 8, ed)),
+                           ("crc-big-endian", a_b32enc(bytes([t]) + ed + a_crc16_xmodem(bytes([t]) + ed).to_bytes(2, "big")))):
+                ctx.run("addr_xlm", [t, u], tag)
+        s = a_fil(h)
+        ctx.run("addr_fil", [s], "valid")
+        for sp in range(1, 8):
+            ctx.run("addr_fil", [a_fil(h, sp)], "spare-bits-%d" % sp)
+        for tag, t in (("explicit-padding", s + "="), ("padding-2", s + "=="), ("upper-body", s[:2] + s[2:].upper()), ("upper-f", "F" + s[1:]),
+                       ("testnet-t", "t" + s[1:]), ("type-0", a_fil(h, ty=0)), ("type-2", a_fil(h, ty=2)), ("type-3-bls", a_fil(h, ty=3)),
+                       ("type-char-2-checksum-1", a_fil(h, ty=2, cty=1)), ("19-byte-hash", a_fil(h[1:])), ("21-byte-hash", a_fil(h + b"\x00")),
+                       ("32-byte-hash", a_fil(h32)), ("no-type", "f" + s[2:])):
+            ctx.run("addr_fil", [t], tag)
+        s = a_nano(edb)
+        ctx.run("addr_nano", [s], "valid")
+        for pb in (1, 2, 4, 8, 15):
+            ctx.run("addr_nano", [a_nano(edb, pad=bytes([0, 0, pb]))], "pad-bits-%d" % pb)
+        for tag, t in (("xrb-prefix", "xrb_" + s[5:]), ("no-prefix", s[5:]), ("upper", s.upper()), ("invalid-key", a_nano(BAD_ED)),
+                       ("checksum-not-reversed", a_nano(edb, ck=a_blake(edb, 5))), ("59-symbols", s[:-1]), ("61-symbols", s + "1"),
+                       ("explicit-padding", s + "========"), ("symbol-outside-alphabet", s[:-1] + "l"), ("prefix-upper", "NANO_" + s[5:])):
+            ctx.run("addr_nano", [t], tag)
+        s = a_nim(h)
+        ctx.run("addr_nim", [s], "valid")
+        e = a_b32enc(h, NIM32)
+        for tag, t in (("no-spaces", s.replace(" ", "")), ("extra-spaces", "  " + s.replace(" ", "   ") + " "), ("lower", s.lower()),
+                       ("check-digits+1", s[:2] + "%02d" % ((int(s[2:4]) + 1) % 100) + s[4:]), ("check-digits+97", s[:2] + "%02d" % ((int(s[2:4]) + 97) % 100) + s[4:]),
+                       ("31-symbols", "NQ" + a_nim_check(e[:-1]) + e[:-1]), ("33-symbols", "NQ" + a_nim_check(e + "0") + e + "0"),
+                       ("letter-I", "NQ" + a_nim_check("I" + e[1:]) + "I" + e[1:]), ("prefix-nq", "nq" + s[2:]), ("tab-separated", s.replace(" ", "\t")),
+                       ("explicit-padding", s + "========")):
+            ctx.run("addr_nim", [t], tag)
+        for fmt in (0, 2, 42, 63, 64, 255, 16383):
+            s = _c11.ss58_ref(ed, fmt)
+            ctx.run("addr_substrate", [fmt, s], "valid")
+            ctx.run("addr_substrate", [(fmt + 1) % 16384, s], "other-format")
+        for tag, raw in (("31-byte-key", b"\x2a" + ed[1:]), ("33-byte-key", b"\x2a" + ed + b"\x00"), ("invalid-key", b"\x2a" + BAD_ED),
+                         ("reserved-46", b"\x2e" + ed), ("two-byte-form-of-42", b"\x4a\x80" + ed), ("first-byte-128", b"\x80" + ed)):
+            ctx.run("addr_substrate", [42, _c11.ss58_raw(raw)], tag)
+
+
+XMR_NETS = [(b"\x12", b"\x13", b"\x2a"), (b"\x18", b"\x19", b"\x24"), (b"\x35", b"\x36", b"\x3f")]
+
+
+def gen_addr_xmr(ctx, keys):
+    rng = ctx.rng
+    for i, (_pc, ps, pv, _h, _h32) in enumerate(keys):
+        std, integ, sub = XMR_NETS[i % 3]
+        pid, pid2 = rbytes(rng, 8), rbytes(rng, 8)
+        plain, with_id = ps + pv, ps + pv + pid
+        for net in (std, sub):
+            ctx.run("addr_xmr", [a_xmr(net, plain), net, None], "standard-valid")
+            ctx.run("addr_xmr", [a_xmr(net, with_id), net, None], "standard-decoder-on-payload-with-id")
+        ctx.run("addr_xmr", [a_xmr(integ, with_id), integ, pid], "integrated-valid")
+        ctx.run("addr_xmr", [a_xmr(integ, with_id), integ, pid2], "integrated-other-id")
+        ctx.run("addr_xmr", [a_xmr(integ, with_id), integ, None], "integrated-text-standard-decoder")
+        ctx.run("addr_xmr", [a_xmr(integ, with_id), integ, pid[:7]], "integrated-7-byte-id-arg")
+        ctx.run("addr_xmr", [a_xmr(integ, with_id), integ, pid + b"\x00"], "integrated-9-byte-id-arg")
+        ctx.run("addr_xmr", [a_xmr(integ, with_id), integ, b""], "integrated-empty-id-arg")
+        # the payment id is MISSING from the payload: no integrated encoder output looks like this
+        ctx.run("addr_xmr", [a_xmr(integ, plain), integ, pid], "integrated-payload-without-id")
+        ctx.run("addr_xmr", [a_xmr(integ, plain), integ, b""], "integrated-payload-without-id-empty-arg")
+        ctx.run("addr_xmr", [a_xmr(std, plain), std, pid], "standard-text-integrated-decoder")
+        for tag, body in (("63-bytes", plain[:-1]), ("65-bytes", plain + b"\x00"), ("71-bytes", with_id[:-1]), ("73-bytes", with_id + b"\x00"),
+                          ("80-bytes", with_id + pid), ("one-key", ps), ("empty-body", b"")):
+            ctx.run("addr_xmr", [a_xmr(integ, body), integ, pid], "integrated-" + tag)
+            ctx.run("addr_xmr", [a_xmr(std, body), std, None], "standard-" + tag)
+        ctx.run("addr_xmr", [a_xmr(std, BAD_ED + pv), std, None], "invalid-spend-key")
+        ctx.run("addr_xmr", [a_xmr(std, ps + BAD_ED), std, None], "invalid-view-key")
+        ctx.run("addr_xmr", [a_xmr(integ, ps + BAD_ED + pid), integ, pid], "integrated-invalid-view-key")
+        ctx.run("addr_xmr", [a_xmr(integ, plain), std, None], "other-net-byte")
+        ctx.run("addr_xmr", [a_xmr(std, plain), std + std, None], "two-byte-net-arg")
+        ctx.run("addr_xmr", [a_xmr(std + std, plain), std + std, None], "two-byte-net")
+        ctx.run("addr_xmr", [a_xmr(b"", std + plain[1:]), b"", None], "empty-net-arg")
+        s = a_xmr(std, plain)
+        ctx.run("addr_xmr", [s[:-1] + ("1" if s[-1] != "1" else "2"), std, None], "checksum-damaged")
+
+
+def gen_addr_ada(ctx, keys):
+    rng = ctx.rng
+    for _pc, _ed, _edb, h, h32 in keys:
+        kh1, kh2 = h + h32[:8], h32[4:]
+        for net in (0, 1):
+            hrp, shrp = ADA_HRP[net]
+            tag_ = ADA_TAG[net]
+            pay = a_bech32(hrp, bytes([tag_]) + kh1 + kh2)
+            stk = a_bech32(shrp, bytes([0xE0 | tag_]) + kh2)
+            ctx.run("addr_ada_shelley", [net, pay], "valid")
+            ctx.run("addr_ada_staking", [net, stk], "valid")
+            ctx.run("addr_ada_shelley", [1 - net, pay], "other-net")
+            ctx.run("addr_ada_staking", [1 - net, stk], "other-net")
+            for t, s in _cases(pay):
+                ctx.run("addr_ada_shelley", [net, s], t)
+            for t, s in _cases(stk):
+                ctx.run("addr_ada_staking", [net, s], t)
+            for ty in range(1, 16):          # the other header types of CIP-19 under the payment HRP / length
+                ctx.run("addr_ada_shelley", [net, a_bech32(hrp, bytes([ty << 4 | tag_]) + kh1 + kh2)], "header-type-%d" % ty)
+                if ty != 14:
+                    ctx.run("addr_ada_staking", [net, a_bech32(shrp, bytes([ty << 4 | tag_]) + kh2)], "header-type-%d" % ty)
+            for t, s in (("other-net-tag", a_bech32(hrp, bytes([1 - tag_]) + kh1 + kh2)), ("net-tag-2", a_bech32(hrp, bytes([2]) + kh1 + kh2)),
+                         ("staking-part-missing", a_bech32(hrp, bytes([tag_]) + kh1)), ("enterprise-type-6", a_bech32(hrp, bytes([0x60 | tag_]) + kh1)),
+                         ("55-bytes", a_bech32(hrp, bytes([tag_]) + kh1 + kh2[:-1])), ("57-bytes", a_bech32(hrp, bytes([tag_]) + kh1 + kh2 + b"\x00")),
+                         ("staking-hrp", a_bech32(shrp, bytes([tag_]) + kh1 + kh2)), ("bech32m", a_bech32(hrp, bytes([tag_]) + kh1 + kh2, BECH32M_CONST)),
+                         ("staking-address", stk)):
+                ctx.run("addr_ada_shelley", [net, s], t)
+            for t, s in (("other-net-tag", a_bech32(shrp, bytes([0xE0 | (1 - tag_)]) + kh2)), ("payment-part-extra", a_bech32(shrp, bytes([0xE0 | tag_]) + kh1 + kh2)),
+                         ("27-bytes", a_bech32(shrp, bytes([0xE0 | tag_]) + kh2[:-1])), ("29-bytes", a_bech32(shrp, bytes([0xE0 | tag_]) + kh2 + b"\x00")),
+                         ("payment-hrp", a_bech32(hrp, bytes([0xE0 | tag_]) + kh2)), ("payment-address", pay)):
+                ctx.run("addr_ada_staking", [net, s], t)
+        # Byron
+        rh, path = kh2, rbytes(rng, rng.choice([10, 26, 30]))
+        for tag0, pth in (("icarus", None), ("legacy", path)):
+            pl = a_byron_payload(rh, pth)
+            ctx.run("addr_ada_byron", [a_byron(pl)], tag0 + "-valid")
+            for t, s in (("trailing-byte", a_byron(pl, junk=b"\x00")), ("trailing-bytes", a_byron(pl, junk=rbytes(rng, 5))),
+                         ("payload-trailing-byte", a_byron(a_byron_payload(rh, pth, junk=b"\x00"))),
+                         ("crc-wrong", a_byron(pl, crc=a_crc32(pl) ^ 1)), ("crc-8-byte-head", a_byron(pl, crc_width=8)), ("tag-25", a_byron(pl, tag=25)),
+                         ("indefinite-array", a_byron(pl, indefinite=True)), ("type-1-script", a_byron(a_byron_payload(rh, pth, ty=1))),
+                         ("type-2-redeem", a_byron(a_byron_payload(rh, pth, ty=2))), ("root-27-bytes", a_byron(a_byron_payload(rh[1:], pth))),
+                         ("root-29-bytes", a_byron(a_byron_payload(rh + b"\x00", pth))),
+                         ("network-magic-attr", a_byron(a_byron_payload(rh, pth, extra_attrs=[(cb_uint(2), cb_bytes(cb_uint(1097911063)))]))),
+                         ("unknown-attr-3", a_byron(a_byron_payload(rh, pth, extra_attrs=[(cb_uint(3), cb_bytes(b"\x01"))]))),
+                         ("outer-3-items", a_b58enc(cb_array([cb_tag(24, cb_bytes(pl)), cb_uint(a_crc32(pl)), cb_uint(0)]))),
+                         ("payload-not-tagged", a_b58enc(cb_array([cb_bytes(pl), cb_uint(a_crc32(pl))]))),
+                         ("truncated", a_b58enc(cb_array([cb_tag(24, cb_bytes(pl)), cb_uint(a_crc32(pl))])[:-1]))):
+                ctx.run("addr_ada_byron", [s], tag0 + "-" + t)
+        for t, attrs in (("attr1-cbor-uint", [(cb_uint(1), cb_bytes(b"\x01"))]), ("attr1-uint-not-bytes", [(cb_uint(1), cb_uint(5))]),
+                         ("attr1-cbor-text", [(cb_uint(1), cb_bytes(b"\x61\x41"))]), ("attr1-cbor-list", [(cb_uint(1), cb_bytes(b"\x80"))]),
+                         ("attr1-bad-cbor", [(cb_uint(1), cb_bytes(b"\x5f"))]), ("attr2-uint-not-bytes", [(cb_uint(2), cb_uint(7))]),
+                         ("attr2-cbor-bytes", [(cb_uint(2), cb_bytes(b"\x41\x00"))]), ("attr1-empty-bytes", [(cb_uint(1), cb_bytes(b""))])):
+            ctx.run("addr_ada_byron", [a_byron(cb_array([cb_bytes(rh), cb_map(attrs), cb_uint(0)]))], t)
+        for t, raw in (("attrs-not-a-map", cb_array([cb_tag(24, cb_bytes(cb_array([cb_bytes(rh), cb_uint(0), cb_uint(0)]))), cb_uint(0)])),
+                       ("tag-value-uint", cb_array([cb_tag(24, cb_uint(5)), cb_uint(0)])), ("crc-is-bytes", cb_array([cb_tag(24, cb_bytes(b"\x00")), cb_bytes(b"\x00")])),
+                       ("not-an-array", cb_uint(5)), ("empty", b"")):
+            ctx.run("addr_ada_byron", [a_b58enc(raw) if raw else ""], t)
+
+
+def gen_addr(ctx):
+    """address-level acceptance streams; a fixed, small number of keys per family (quick: 2, thorough: 12)"""
+    n = ctx.n(2, 12)
+    gen_addr_xmr(ctx, [(None, a_ed(rbytes(ctx.rng, 32)), a_ed(rbytes(ctx.rng, 32)), None, None) for _ in range(max(n, 3))])
+    keys = _keys(ctx, n)
+    gen_addr_b58(ctx, keys)
+    gen_addr_bech32(ctx, keys)
+    gen_addr_base32(ctx, keys)
+    gen_addr_ada(ctx, keys)
+    ctx.note_exhaustive("address decoders: per key every listed structural variant (payload lengths, prefixes / versions / header "
+                        "types 0..15, spare bits 1..3 / 1..7, pad bits, optional fields present / missing) for 35 DecodeAddr entry points")
+
+
+# ------------------------------------------------------------------ known findings (address level)
+
+def a_xmr_dec(s):
+    """Monero block Base58 from its definition (strict); None when not decodable"""
+    bl = _c11.xmr_blocks(s)
+    if bl is None or any(c not in B58 for c in s):
+        return None
+    out = b""
+    for t, d in bl:
+        v = 0
+        for c in t:
+            v = v * 58 + B58.index(c)
+        if v >= 256 ** d:
+            return None
+        out += v.to_bytes(d, "big")
+    return out
+
+
+def match_xmr_integ_len(fn, args, record):
+    """XmrIntegratedAddrDecoder accepts a payload that has the plain (no payment id) length."""
+    if fn != "addr_xmr" or record.get("kind") != "direct" or args[2] is None:
+        return False
+    raw = a_xmr_dec(args[0])
+    return raw is not None and len(raw) == len(args[1]) + 64 + 4
+
+
+def match_xmr_integ_len_replay():
+    ps, pv = a_ed(bytes(range(32))), a_ed(bytes(range(1, 33)))
+    s = a_xmr(b"\x13", ps + pv)
+    r = impl_call(_xmr_impl, [s, b"\x13", bytes(8)])
+    return "XmrIntegratedAddrDecoder.DecodeAddr(%r, net_ver=b'\\x13', payment_id=bytes(8)) accepted (payload has no payment id)" % s if r[0] == "ok" else None
+
+
+def match_p2wpkh_len(fn, args, record):
+    """P2WPKHAddrDecoder returns the 32-byte program of a version-0 (P2WSH) address."""
+    if fn != "addr_p2wpkh" or record.get("kind") != "direct":
+        return False
+    r = ref_segwit_decode(args[0], args[1])
+    return r is not None and r[0] == 0 and len(r[1]) == 32
+
+
+P2WSH_WITNESS = "bc1qqqqsyqcyq5rqwzqfpg9scrgwpugpzysnzs23v9ccrydpk8qarc0szrtjt7"
+
+
+def match_p2wpkh_len_replay():
+    r = impl_call(lambda a: _bu.P2WPKHAddrDecoder.DecodeAddr(a, hrp="bc"), P2WSH_WITNESS)
+    return "P2WPKHAddrDecoder.DecodeAddr(%r, hrp='bc') returned %d bytes" % (P2WSH_WITNESS, len(r[1])) if r[0] == "ok" and len(r[1]) != 20 else None
+
+
+def _spare_variant(s, alph, body_from, nsym, mask):
+    """s minus trailing '=' with the spare bits of the last symbol cleared, or None if s has not that shape"""
+    t = s.rstrip("=")
+    body = t[body_from:]
+    if len(body) != nsym or body[-1] not in alph or len(s) - len(t) > 6:
+        return None
+    return t[:-1] + alph[alph.index(body[-1]) & ~mask]
+
+
+def match_algo_noncanon(fn, args, record):
+    """AlgoAddrDecoder accepts an address with non-zero spare bits in the last symbol and/or written-out '=' padding."""
+    if fn != "addr_algo" or record.get("kind") != "direct":
+        return False
+    c = _spare_variant(args[0], RFC32, 0, 58, 3)
+    r = impl_call(_bu.AlgoAddrDecoder.DecodeAddr, args[0])
+    return c is not None and c != args[0] and r[0] == "ok" and a_algo(r[1]) == c
+
+
+def match_algo_noncanon_replay():
+    s = a_algo(a_ed(bytes(range(32))))
+    bad = [t for t in (a_algo(a_ed(bytes(range(32))), 1), s + "======") if impl_call(_bu.AlgoAddrDecoder.DecodeAddr, t)[0] == "ok"]
+    return "AlgoAddrDecoder.DecodeAddr accepts %s beside the address %s" % (", ".join(bad), s) if bad else None
+
+
+def match_fil_noncanon(fn, args, record):
+    """FilSecp256k1AddrDecoder accepts non-zero spare bits in the last symbol and/or a written-out '='."""
+    if fn != "addr_fil" or record.get("kind") != "direct":
+        return False
+    c = _spare_variant(args[0], FIL32, 2, 39, 7)
+    r = impl_call(_bu.FilSecp256k1AddrDecoder.DecodeAddr, args[0])
+    return c is not None and c != args[0] and r[0] == "ok" and a_fil(r[1]) == c
+
+
+def match_fil_noncanon_replay():
+    h = bytes(range(20))
+    bad = [t for t in (a_fil(h, 5), a_fil(h) + "=") if impl_call(_bu.FilSecp256k1AddrDecoder.DecodeAddr, t)[0] == "ok"]
+    return "FilSecp256k1AddrDecoder.DecodeAddr accepts %s beside the address %s" % (", ".join(bad), a_fil(h)) if bad else None
+
+
+def match_nano_padbits(fn, args, record):
+    """NanoAddrDecoder accepts a first symbol whose four high (padding) bits are not zero."""
+    if fn != "addr_nano" or record.get("kind") != "direct":
+        return False
+    s = args[0]
+    if len(s) != 65 or s[:5] != "nano_" or s[5] not in NANO32 or NANO32.index(s[5]) < 2:
+        return False
+    r = impl_call(_bu.NanoAddrDecoder.DecodeAddr, s)
+    return r[0] == "ok" and a_nano(r[1]) == s[:5] + NANO32[NANO32.index(s[5]) & 1] + s[6:]
+
+
+def match_nano_padbits_replay():
+    pub = a_edb(bytes(range(32)))
+    t = a_nano(pub, pad=b"\x00\x00\x0f")
+    return "NanoAddrDecoder.DecodeAddr accepts %s beside the address %s" % (t, a_nano(pub)) if impl_call(_bu.NanoAddrDecoder.DecodeAddr, t)[0] == "ok" else None
+
+
+def _byron_trailing(s):
+    raw = a_b58dec(s)
+    try:
+        outer, n = cb_parse(raw)
+        if n != len(raw):
+            return True
+        _pl, n2 = cb_parse(outer[0].value)
+        return n2 != len(outer[0].value)
+    except Exception:  # noqa
+        return False
+
+
+def match_byron_trailing(fn, args, record):
+    """AdaByronAddrDecoder ignores bytes that follow the CBOR item (outer array or tagged payload)."""
+    return fn == "addr_ada_byron" and record.get("kind") == "direct" and _byron_trailing(args[0])
+
+
+def match_byron_trailing_replay():
+    s = a_byron(a_byron_payload(bytes(range(28))), junk=b"\x00")
+    return "AdaByronAddrDecoder.DecodeAddr(%r) accepted: one byte follows the CBOR item" % s if impl_call(_bu.AdaByronAddrDecoder.DecodeAddr, s)[0] == "ok" else None
+
+
+def _byron_wrong_types(s):
+    """the CBOR is well-formed and has the outer shape, but the tagged value / an attribute has the wrong CBOR type"""
+    raw = a_b58dec(s)
+    try:
+        outer, _n = cb_parse(raw)
+        if not isinstance(outer, list) or len(outer) != 2 or not isinstance(outer[0], CbTag):
+            return False
+        if not isinstance(outer[0].value, bytes):
+            return True
+        pl, _n2 = cb_parse(outer[0].value)
+        attrs = pl[1]
+        for k in (1, 2):
+            if k in attrs and not isinstance(attrs[k], bytes):
+                return True
+        return 1 in attrs and not isinstance(cb_parse(attrs[1])[0], bytes)
+    except Exception:  # noqa
+        return False
+
+
+def match_byron_typeerror(fn, args, record):
+    """AdaByronAddrDecoder lets a TypeError escape for well-formed CBOR whose tagged value or attribute has another type."""
+    return (fn == "addr_ada_byron" and record.get("kind") == "divergence" and record.get("impl") == {"err": "TypeError"}
+            and record.get("model") == {"err": "ValueError"} and _byron_wrong_types(args[0]))
+
+
+def match_byron_typeerror_replay():
+    s = a_b58enc(cb_array([cb_tag(24, cb_uint(5)), cb_uint(0)]))
+    r = impl_call(_bu.AdaByronAddrDecoder.DecodeAddr, s)
+    return "AdaByronAddrDecoder.DecodeAddr(%r) raised %s" % (s, r[1]) if r == ("err", "TypeError") else None
+
+
 def generate(ctx):
     import time
     gen_ss58_xmr(ctx)
+    gen_addr(ctx)
     parts = [(gen_convert_bits, 0.08), (gen_polymod, 0.05), (gen_bech32, 0.27), (gen_segwit, 0.22), (gen_cash, 0.18),
              (gen_b58_wif, 0.08), (gen_strings, 0.12)]
     total = ctx.budget_s
